@@ -5,6 +5,7 @@ package main
 import (
 	"go/token"
 	"go/types"
+	"strings"
 
 	"golang.org/x/tools/go/ssa"
 )
@@ -283,7 +284,7 @@ func init() {
 	register(&propertySpec{
 		ID:      "C13",
 		Explain: "Static totality rules: recursion classes, may-panic sites on input-derived data, nil use after an ignored error, locks released by plain calls around code that can panic, swallowed errors.",
-		Rules:   []ruleFn{ruleTerm("C13"), rulePanics, ruleErrSwallow},
+		Rules:   []ruleFn{ruleTerm("C13"), rulePanics, ruleErrSwallow, ruleNilAfterErr, ruleLockDefer},
 	})
 }
 
@@ -496,4 +497,316 @@ func ruleErrSwallow(w *World, r *Report) {
 		}
 	}
 	r.stat("ERR-SWALLOW.functions_with_named_error_result", n)
+}
+
+// ---- NIL-AFTER-ERR -----------------------------------------------------------------------------------
+
+func ruleNilAfterErr(w *World, r *Report) {
+	r.Rule("NIL-AFTER-ERR", "when a call returns (pointer, error) and the error branch does not leave the function (it only logs), the pointer is not dereferenced afterwards on a path from that branch: on failure the pointer is nil and the dereference panics", 20)
+	n := 0
+	for _, fn := range w.Funcs {
+		if isTestFile(w, fn) || fn.Synthetic != "" {
+			continue
+		}
+		p := w.RelPkg(fn)
+		if p != "core" && p != "sys" && p != "service" && p != "cron" {
+			continue
+		}
+		counts := map[string]int{}
+		allInstrs(fn, func(in ssa.Instruction) {
+			c, ok := in.(*ssa.Call)
+			if !ok {
+				return
+			}
+			sig := c.Common().Signature()
+			eidx := errorResultIndex(sig)
+			if eidx < 1 {
+				return
+			}
+			var ptr, errv ssa.Value
+			if c.Referrers() == nil {
+				return
+			}
+			for _, ref := range *c.Referrers() {
+				if ex, ok := ref.(*ssa.Extract); ok {
+					if ex.Index == eidx {
+						errv = ex
+					} else if _, isPtr := ex.Type().Underlying().(*types.Pointer); isPtr && ptr == nil {
+						ptr = ex
+					}
+				}
+			}
+			if ptr == nil || errv == nil {
+				return
+			}
+			if f := c.Common().StaticCallee(); f != nil && returnsFresh(f) {
+				return // the callee always returns a freshly allocated object, error or not
+			}
+			n++
+			callee := calleeName(c.Common())
+			counts[callee]++
+			key := "fn=" + fname(fn) + " call=" + callee
+			if counts[callee] > 1 {
+				key += "#" + itoa(counts[callee])
+			}
+			// uses of ptr that dereference it
+			isDeref := func(x ssa.Instruction) bool {
+				switch y := x.(type) {
+				case *ssa.FieldAddr:
+					return y.X == ptr
+				case *ssa.UnOp:
+					return y.Op == token.MUL && y.X == ptr
+				case ssa.CallInstruction:
+					cc := y.Common()
+					if cc.IsInvoke() {
+						return false
+					}
+					if f := cc.StaticCallee(); f != nil && f.Signature.Recv() != nil && len(cc.Args) > 0 && cc.Args[0] == ptr {
+						// a method on the pointer: dereferences unless it is nil-tolerant; assume it dereferences when it touches a field
+						return derefsReceiver(f)
+					}
+				}
+				return false
+			}
+			bad := ""
+			for _, b := range fn.Blocks {
+				if len(b.Instrs) == 0 {
+					continue
+				}
+				ifi, ok := b.Instrs[len(b.Instrs)-1].(*ssa.If)
+				if !ok {
+					continue
+				}
+				ct, ok := decodeIf(ifi)
+				if !ok || resolveSpill(ct.V) != errv && ct.V != errv {
+					continue
+				}
+				var failSucc *ssa.BasicBlock
+				if ct.TrueWhen == "nonnil" {
+					failSucc = b.Succs[0]
+				} else if ct.TrueWhen == "nil" {
+					failSucc = b.Succs[1]
+				} else {
+					continue
+				}
+				if len(failSucc.Instrs) == 0 {
+					continue
+				}
+				first := failSucc.Instrs[0]
+				if isDeref(first) {
+					bad = w.PosOf(first)
+					continue
+				}
+				// path-sensitive: do not re-enter the nil edge of another test of the same error
+				nilEdges := func(from *ssa.BasicBlock, si int) bool {
+					// on this path the pointer is nil: do not take the non-nil edge of a test of it
+					if len(from.Instrs) == 0 {
+						return true
+					}
+					if i2, ok := from.Instrs[len(from.Instrs)-1].(*ssa.If); ok {
+						if c2, ok := decodeIf(i2); ok && c2.V == ptr {
+							if c2.TrueWhen == "nonnil" && si == 0 {
+								return false
+							}
+							if c2.TrueWhen == "nil" && si == 1 {
+								return false
+							}
+						}
+						// `p != nil && ...` short-circuits compile to the same shape
+					}
+					return true
+				}
+				if h, _ := reachPS(fn, first, isDeref, nil, nilEdges); h != nil {
+					// make sure the path did not pass a re-assignment; SSA values are immutable, so ptr is still the failed result
+					bad = w.PosOf(h)
+				}
+			}
+			if bad != "" {
+				r.violation("NIL-AFTER-ERR", key, bad, "the pointer returned by "+callee+" is dereferenced on a path on which the call reported an error (only logged): nil dereference")
+			} else {
+				r.ok("NIL-AFTER-ERR", key, w.PosOf(in), "the error branch leaves, or the pointer is not dereferenced after it")
+			}
+		})
+	}
+	r.stat("NIL-AFTER-ERR.pointer_error_calls", n)
+}
+
+func derefsReceiver(f *ssa.Function) bool {
+	if f.Blocks == nil || len(f.Params) == 0 {
+		return true
+	}
+	recv := f.Params[0]
+	res := false
+	allInstrs(f, func(in ssa.Instruction) {
+		switch y := in.(type) {
+		case *ssa.FieldAddr:
+			if y.X == ssa.Value(recv) {
+				res = true
+			}
+		case *ssa.UnOp:
+			if y.Op == token.MUL && y.X == ssa.Value(recv) {
+				res = true
+			}
+		}
+	})
+	return res
+}
+
+// ---- LOCK-DEFER ------------------------------------------------------------------------------------------
+
+func ruleLockDefer(w *World, r *Report) {
+	r.Rule("LOCK-DEFER", "a state / location lock that is released by a plain call (not by defer) does not enclose code that can panic or that calls out of rulio's control: a hook (function-valued field), the pattern matcher, the JavaScript engine, or a rulio function with an un-exempted may-panic site; a panic in such a section leaves the lock held and the location blocks forever", 6)
+	e := newLocksetEngine(w, guardsStates())
+	// risky functions
+	risky := map[*ssa.Function]string{}
+	isExternalCall := func(in ssa.Instruction) string {
+		c := callOf(in)
+		if c == nil {
+			return ""
+		}
+		if !c.IsInvoke() && c.StaticCallee() == nil {
+			if _, isBuiltin := c.Value.(*ssa.Builtin); !isBuiltin {
+				// call of a function value: a hook when it is loaded from a field
+				if n, f, _, ok := loadedField(c.Value); ok && (n.Obj().Name() == "IndexedState" || n.Obj().Name() == "LinearState") {
+					return "hook " + f
+				}
+			}
+		}
+		if f := c.StaticCallee(); f != nil && f.Pkg != nil {
+			pp := f.Pkg.Pkg.Path()
+			if strings.HasPrefix(pp, "github.com/Comcast/sheens") {
+				return "matcher " + f.Name()
+			}
+			if strings.HasPrefix(pp, ottoPath) && (f.Name() == "Run" || f.Name() == "Call") {
+				return "JavaScript engine"
+			}
+		}
+		if c.IsInvoke() {
+			if n := namedOf(c.Value.Type()); n != nil && n.Obj().Pkg() != nil && n.Obj().Pkg().Path() == modPath+"/core" && n.Obj().Name() == "Matcher" {
+				return "matcher (core.Matcher)"
+			}
+		}
+		return ""
+	}
+	for _, fn := range w.Funcs {
+		if isTestFile(w, fn) {
+			continue
+		}
+		var sites []panicSite
+		sites = append(sites, uncheckedAsserts(fn)...)
+		sites = append(sites, explicitPanics(fn)...)
+		sites = append(sites, constIndexSites(fn)...)
+		for _, s := range sites {
+			k, _ := panicKey(w, s)
+			if _, ok := panicExemptions[k]; !ok {
+				risky[fn] = "may-panic site at " + w.PosOf(s.In)
+			}
+		}
+		allInstrs(fn, func(in ssa.Instruction) {
+			if d := isExternalCall(in); d != "" && risky[fn] == "" {
+				risky[fn] = d + " at " + w.PosOf(in)
+			}
+		})
+	}
+	for changed := true; changed; {
+		changed = false
+		for _, fn := range w.Funcs {
+			if isTestFile(w, fn) || risky[fn] != "" {
+				continue
+			}
+			allInstrs(fn, func(in ssa.Instruction) {
+				if risky[fn] != "" {
+					return
+				}
+				if c := callOf(in); c != nil {
+					if f := c.StaticCallee(); f != nil && risky[f] != "" {
+						risky[fn] = "calls " + fname(f) + " (" + risky[f] + ")"
+						changed = true
+					}
+				}
+			})
+		}
+	}
+	locks := map[string]bool{}
+	for _, g := range guardsStates() {
+		locks[g.Lock] = true
+	}
+	n := 0
+	for _, fn := range w.Funcs {
+		if isTestFile(w, fn) || fn.Synthetic != "" {
+			continue
+		}
+		for lock := range locks {
+			if !e.inside(fn, lock) {
+				continue
+			}
+			var acq, rel []ssa.Instruction
+			deferredRel := false
+			allInstrs(fn, func(in ssa.Instruction) {
+				if d, ok := in.(*ssa.Defer); ok {
+					// a deferred release
+					tmp := &ssa.Call{Call: d.Call}
+					_ = tmp
+					if id, a, _, ok := e.lockOp(&d.Call); ok && !a && id == lock {
+						deferredRel = true
+					}
+					for _, callee := range e.calleesOf(d) {
+						if e.analyze(callee, specOf(&d.Call, callee)).Rel[lock] {
+							deferredRel = true
+						}
+					}
+					return
+				}
+				if e.acquires(in, lock) {
+					acq = append(acq, in)
+				}
+				if e.releases(in, lock) {
+					rel = append(rel, in)
+				}
+			})
+			if len(acq) == 0 || len(rel) == 0 {
+				continue
+			}
+			// wrappers themselves (slock / sunlock) acquire or release only
+			if len(acq) > 0 && len(rel) > 0 {
+				n++
+				key := "fn=" + fname(fn) + " lock=" + lock
+				bad := ""
+				for _, a := range acq {
+					for _, rl := range rel {
+						if !reachable(fn, a, rl) {
+							continue
+						}
+						x := between(fn, a, rl, func(in ssa.Instruction) bool {
+							if isExternalCall(in) != "" {
+								return true
+							}
+							if c := callOf(in); c != nil {
+								if f := c.StaticCallee(); f != nil && risky[f] != "" {
+									return true
+								}
+							}
+							return false
+						})
+						if x != nil && bad == "" {
+							why := isExternalCall(x)
+							if why == "" {
+								if f := callOf(x).StaticCallee(); f != nil {
+									why = "calls " + fname(f) + ": " + risky[f]
+								}
+							}
+							bad = w.PosOf(x) + " (" + why + ")"
+						}
+					}
+				}
+				_ = deferredRel
+				if bad != "" {
+					r.violation("LOCK-DEFER", key, w.Pos(fn.Pos()), "the lock is released by a plain call but the section reaches code that can panic or leaves rulio's control: "+bad)
+				} else {
+					r.ok("LOCK-DEFER", key, w.Pos(fn.Pos()), "plain-call release, but nothing in the section can panic")
+				}
+			}
+		}
+	}
+	r.stat("LOCK-DEFER.sections_with_plain_release", n)
 }
